@@ -212,6 +212,20 @@ def frozen_list(items: list[Any]) -> Any:
     return t
 
 
+class FrozenDict(dict):                                  # type: ignore[type-arg]
+    """A dict owned by the input model: a store, pop, update ... through the evaluator raises AbsMutation."""
+    _frozen = True
+
+
+def frozen_value(v: Any) -> Any:
+    """Containers inside an attribute value are the model's own objects as well."""
+    if isinstance(v, dict):
+        return FrozenDict((k, frozen_value(x)) for k, x in v.items())
+    if isinstance(v, list):
+        return frozen_list([frozen_value(x) for x in v])
+    return v
+
+
 def freeze_model(fm: AObj) -> None:
     """Mark every object and container owned by the model as input-owned: a store into them
     during formula evaluation raises AbsMutation."""
@@ -223,7 +237,9 @@ def freeze_model(fm: AObj) -> None:
                 return o
             seen.add(id(o))
             for k, v in list(o._f.items()):
-                if isinstance(v, list):
+                if o._cls == "Attribute" and k in ("default_value", "null_value") and isinstance(v, (list, dict)):
+                    o._f[k] = frozen_value(v)
+                elif isinstance(v, list):
                     o._f[k] = frozen_list([fz(x) for x in v])
                 elif isinstance(v, AObj):
                     fz(v)
